@@ -24,7 +24,11 @@ pub const BIG_TTL: u32 = 3_110_400;
 /// Fresh Env: unlimited budget, no snapshot file, `min_temp_entry_ttl = 1`.
 pub fn new_env(seq: u32, max_entry_ttl: u32) -> Env {
     let e = Env::new_with_config(EnvTestConfig { capture_snapshot_at_drop: false });
-    e.cost_estimate().budget().reset_unlimited();
+    // finite per-invocation budget: a runaway loop in the code under test must end as a failed call, not as an
+    // out-of-memory kill of the whole check (limits far above any legitimate call, DESIGN §9.17; the capacity
+    // scenarios of C20 raise them with `raise_budget`)
+    let (cpu, mem) = budget_limits();
+    e.cost_estimate().budget().reset_limits(cpu, mem);
     // network-configuration limits (entry size, footprint, ...) are not the library's documented limits
     e.cost_estimate().disable_resource_limits();
     // host diagnostics (debug event log + backtrace attached to every error) only enrich error text,
@@ -40,6 +44,18 @@ pub fn new_env(seq: u32, max_entry_ttl: u32) -> Env {
         li.max_entry_ttl = max_entry_ttl;
     });
     e
+}
+
+/// (cpu instructions, memory bytes) allowed per top-level invocation; VERIF_CPU_LIMIT / VERIF_MEM_LIMIT override.
+/// The heaviest legitimate invocation of the ordinary cases stays below 3e9 instructions / 0.4 GB (measured by running
+/// every check with those limits); a real network allows 1e8 instructions.
+pub fn budget_limits() -> (u64, u64) {
+    let get = |k: &str, d: u64| std::env::var(k).ok().and_then(|s| s.parse::<u64>().ok()).unwrap_or(d);
+    (get("VERIF_CPU_LIMIT", 10_000_000_000), get("VERIF_MEM_LIMIT", 1_000_000_000))
+}
+/// for the few scripted scenarios that legitimately need more (10 000-token registry, 5 000 documents in one frame)
+pub fn raise_budget(e: &Env, cpu: u64, mem: u64) {
+    e.cost_estimate().budget().reset_limits(cpu, mem);
 }
 
 pub fn seq(e: &Env) -> u32 {
